@@ -9,6 +9,7 @@ import (
 	"os"
 	"path/filepath"
 	"sort"
+	"strings"
 	"time"
 
 	"github.com/FollowTheProcess/msg"
@@ -345,8 +346,18 @@ func (a *App) handleDefault(spokfile *file.SpokFile, runner shell.Runner) error 
 // clean is the default implementation of --clean if the user has
 // not defined a clean task in the spokfile itself.
 func (a *App) clean(spokfile *file.SpokFile) error {
+	// Outputs declared as glob patterns need expanding to the files that currently match
+	if err := spokfile.ExpandGlobs(); err != nil {
+		return err
+	}
+
 	var toRemove []string
 	for _, task := range spokfile.Tasks {
+		// Files matching the declared glob outputs
+		for _, pattern := range task.GlobOutputs {
+			toRemove = append(toRemove, spokfile.Globs[pattern]...)
+		}
+
 		// Gather up all the declared file outputs
 		for _, fileOutput := range task.FileOutputs {
 			resolved, err := filepath.Abs(fileOutput)
@@ -370,6 +381,11 @@ func (a *App) clean(spokfile *file.SpokFile) error {
 			if !ok {
 				return fmt.Errorf("Named output %s is not defined", namedOutput)
 			}
+			// Like every other path in a spokfile, a relative named output is relative
+			// to the spokfile, not to wherever spok happens to be invoked from
+			if !filepath.IsAbs(actual) {
+				actual = filepath.Join(spokfile.Dir, actual)
+			}
 			resolved, err := filepath.Abs(actual)
 			if err != nil {
 				return err
@@ -392,6 +408,15 @@ func (a *App) clean(spokfile *file.SpokFile) error {
 	if len(toRemove) == 0 {
 		msg.Fsuccess(a.stream.Stdout, "Nothing to remove")
 		return nil
+	}
+
+	// An output that evaluates to the spokfile, the directory it lives in or anything
+	// above it (e.g. "", "." or "..") must never be removed, refuse before touching anything
+	for _, file := range toRemove {
+		rel, err := filepath.Rel(filepath.Clean(file), spokfile.Path)
+		if err == nil && rel != ".." && !strings.HasPrefix(rel, ".."+string(filepath.Separator)) {
+			return fmt.Errorf("Refusing to remove %s: it is or contains the spokfile at %s", file, spokfile.Path)
+		}
 	}
 
 	for _, file := range toRemove {
